@@ -3,6 +3,7 @@ package main
 // Environment stubs: time.Now, random/hashed UUIDs, reflection-based helpers.
 
 import (
+	"strconv"
 	"crypto/sha1"
 	"fmt"
 	"go/token"
@@ -277,4 +278,31 @@ func (e *Engine) deepEqual(t types.Type, a, b Value, depth int) *Term {
 	}
 	e.unsupported("DeepEqual on %T", a)
 	return nil
+}
+
+func init() {
+	extraIntrinsics = append(extraIntrinsics, func(e *Engine) {
+		in := e.intr
+		in["internal/stringslite.Clone"] = func(e *Engine, fr *frame, a []Value) Value { return a[0] }
+		in["strings.Clone"] = in["internal/stringslite.Clone"]
+		// strconv.ParseFloat: native on concrete text; on symbolic text a
+		// nondeterministic stub (either an error, or an arbitrary float64 carried
+		// as an opaque 64-bit pattern).
+		in["strconv.ParseFloat"] = func(e *Engine, fr *frame, a []Value) Value {
+			s := a[0].(Str)
+			bits := int(e.concInt(a[1]))
+			if s.t == nil {
+				f, err := strconv.ParseFloat(s.s, bits)
+				if err != nil {
+					return Tuple{f, e.newError(err.Error())}
+				}
+				return Tuple{f, Iface{}}
+			}
+			if e.choose(2) == 0 {
+				return Tuple{float64(0), e.newError("strconv.ParseFloat: parsing <symbolic>: invalid syntax")}
+			}
+			e.witnessCount++
+			return Tuple{FloatSym{e.newVar(fmt.Sprintf("~float%d", e.witnessCount), 64)}, Iface{}}
+		}
+	})
 }
